@@ -152,3 +152,9 @@ def run(eng, tier):
         'not_decided': ['numeric value of the rounded pro-rata fee (formula agreement only)'],
         'assumptions': ['I2, I4, I7 hold on loaded records (their preservation is C01/C08/C09)'],
     }
+
+import probes as _pb
+PROBES = [
+    _pb.drop_message('execute', 'RejectBid', 0),
+    _pb.drop_facts('execute', 'RejectAsk', '% CFG.size_increment'),
+]
